@@ -11,6 +11,7 @@ from harness import core
 from harness.gen import ir as G
 from harness.props.c11 import ALPHABET, mutate, repo_docstrings
 from harness.props.c15 import render_section
+from harness.props import c14gn
 
 MODULE = "CddVerif.Properties.C14"
 THEOREMS = ["C14.parseRest_wf", "C14.upsert_nodup", "C14.upsert_keys", "C14.mapVals_keys", "C14.setNameAndType_ok_name",
@@ -395,9 +396,11 @@ def impl_emitted(case):
 
 
 def run(chk: core.Check) -> int:
-    chk.lean(MODULE, THEOREMS)
+    chk.lean(c14gn.MODULE, THEOREMS + c14gn.THEOREMS)  # Properties/C14GN.lean imports Properties/C14.lean
     chk.trusted_base += [
         "theorem: the ReST reference parser of lean/CddVerif/Model/Doc.lean (tied to the real parser by C01's correspondence on emitter images and line-level perturbations); "
+        "Properties/C14GN.lean: the same for a character-level port of the Google and NumPy scan/parse phases (Model/DocGN.lean), every text, both styles, tied to the real "
+        "_scan_phase/_parse_phase/parse_docstring by exact comparison (results, exception classes) with abstention where literal_eval/float()/prose type inference is not modelled; "
         "the other parsers, and the clauses 'type parses as a Python expression' / 'every signature parameter occurs once', are evaluated on the real parsers' outputs",
     ]
     rng = chk.rng
@@ -524,6 +527,8 @@ def run(chk: core.Check) -> int:
                 chk.disagreement("C14 correspondence: parameter names of the ReST parser", {"text": t}, [k for k, _ in r["ir"]["params"]], [k for k, _ in m["ir"]["params"]])
         chk.oblige("correspondence: names/order returned by Doc.parseRest = real parser on %d ReST texts incl. the empty-name witness (%d outside the model)" % (len(rest_texts), n_out),
                    "correspondence", n_dis == 0, "%d disagreements" % n_dis)
+    # (6) Google / NumPy parsers: Model/DocGN.lean against the real scan and parse phases (C14GN theorems)
+    c14gn.run_gn(chk, rng, core.DRIVER.exists())
     chk.sample({"docstring": gens[0]["doc"], "style": gens[0]["style"]})
     chk.sample({"function": fns[0]["src"]})
     return chk.finish("grammar-generated docstrings (3 styles, sections in any order, raises/notes/usage sections, multi-line descriptions, *args/**kwargs entries, blank types), "
